@@ -819,7 +819,14 @@ impl<'a> Sim<'a> {
                 }
             }
             Err(e) => {
-                if verified && !matches!(e, RegError::DifferentBaseRegister) {
+                let union_len = self.reps[a].have.union(&self.reps[b].have).count();
+                let other_valid = !verified || other.verify().is_ok();
+                if other_valid && union_len >= COUNT_LIMIT && matches!(e, RegError::TooManyEntries(_)) {
+                    // either-zone: a merge whose result would reach the entry-count limit may be
+                    // refused (the state must stay unchanged, checked below)
+                    self.flags.count_refusal = true;
+                    ctx.label("merge_refused_at_count_limit");
+                } else if verified && !other_valid {
                     // the other replica's state was reached through accepted ops and merges
                     let sig = self.closure_sig(b, &e);
                     ctx.fail(
@@ -880,6 +887,12 @@ impl<'a> Sim<'a> {
                 (Err(_), Some(_)) => {
                     self.flags.rejected_invalid = true;
                     ctx.label("foreign_register_with_invalid_op_rejected");
+                }
+                (Err(RegError::TooManyEntries(_)), None)
+                    if self.reps[a].have.union(ids).count() >= COUNT_LIMIT =>
+                {
+                    self.flags.count_refusal = true;
+                    ctx.label("merge_refused_at_count_limit");
                 }
                 (Err(e), None) if !either => ctx.fail(
                     format!("verified_merge_rejects_valid_register:{}", err_name(e)),
@@ -1112,8 +1125,13 @@ pub fn check(case: &Case, ctx: &mut Ctx) {
                         format!("replica {other}: refused verified_merge of replica {r} still changed the state"),
                     );
                 }
-                if !matches!(e, RegError::TooManyEntries(_)) || sim.reps[r].real.verify().is_ok() {
-                    // (a TooManyEntries here was already reported by verify_closure above)
+                let union_len = sim.reps[other].have.union(&sim.reps[r].have).count();
+                let valid = sim.reps[r].real.verify().is_ok();
+                if !valid {
+                    // already reported by verify_closure above
+                } else if matches!(e, RegError::TooManyEntries(_)) && union_len >= COUNT_LIMIT {
+                    ctx.label("merge_refused_at_count_limit");
+                } else {
                     let sig = sim.closure_sig(r, &e);
                     ctx.fail(
                         sig,
@@ -1260,16 +1278,28 @@ fn orders_differ(reps: &[Rep]) -> bool {
 /// commutativity, associativity and idempotence of `merge` on the real replicas
 fn check_laws(sim: &Sim, ctx: &mut Ctx, n: usize) {
     let w = sim.w;
-    let merged = |ctx: &mut Ctx, x: &SignedRegister, y: &SignedRegister, what: &str| -> Option<SignedRegister> {
+    // Ok(result) | Err(true): refused in the count-limit either-zone | Err(false): failure reported
+    let merged = |ctx: &mut Ctx, x: &SignedRegister, y: &SignedRegister, what: &str| -> Result<SignedRegister, bool> {
         let mut r = x.clone();
         match r.merge(y) {
-            Ok(()) => Some(r),
+            Ok(()) => Ok(r),
             Err(e) => {
+                if &r != x {
+                    ctx.fail(
+                        "failed_merge_changed_state",
+                        format!("{what}: refused merge still changed the state"),
+                    );
+                }
+                let union_len = x.ops().union(y.ops()).count();
+                if matches!(e, RegError::TooManyEntries(_)) && union_len >= COUNT_LIMIT {
+                    ctx.label("merge_refused_at_count_limit");
+                    return Err(true);
+                }
                 ctx.fail(
                     format!("merge_refused_same_base:{}", err_name(&e)),
                     format!("{what}: merge of two replicas of the same register failed: {e}"),
                 );
-                None
+                Err(false)
             }
         }
     };
@@ -1277,12 +1307,12 @@ fn check_laws(sim: &Sim, ctx: &mut Ctx, n: usize) {
     for a in 0..n {
         let ra = &sim.reps[a].real;
         // idempotence: x ∪ x = x, x ∪ ∅ = x
-        if let Some(x) = merged(ctx, ra, ra, "x∪x") {
+        if let Ok(x) = merged(ctx, ra, ra, "x∪x") {
             if &x != ra {
                 ctx.fail("merge_not_idempotent", format!("replica {a} merged with itself changed"));
             }
         }
-        if let Some(x) = merged(ctx, ra, &empty, "x∪∅") {
+        if let Ok(x) = merged(ctx, ra, &empty, "x∪∅") {
             if &x != ra {
                 ctx.fail("merge_not_idempotent", format!("replica {a} merged with an empty replica changed"));
             }
@@ -1291,22 +1321,29 @@ fn check_laws(sim: &Sim, ctx: &mut Ctx, n: usize) {
             let rb = &sim.reps[b].real;
             let ab = merged(ctx, ra, rb, "a∪b");
             let ba = merged(ctx, rb, ra, "b∪a");
-            if let (Some(ab), Some(ba)) = (ab, ba) {
-                if ab.ops() != ba.ops() || ab != ba {
-                    ctx.fail(
-                        "merge_not_commutative",
-                        format!("replicas {a},{b}: a∪b holds {} ops, b∪a holds {} ops", ab.ops().len(), ba.ops().len()),
-                    );
-                }
-                let want: BTreeSet<usize> = sim.reps[a].have.union(&sim.reps[b].have).copied().collect();
-                if w.ids_of(&ab).ok() != Some(want) {
-                    ctx.fail("merge_not_union", format!("replicas {a},{b}: a∪b is not the union of both op sets"));
-                }
-                if let Some(abb) = merged(ctx, &ab, rb, "(a∪b)∪b") {
-                    if abb != ab {
-                        ctx.fail("merge_not_idempotent", format!("replicas {a},{b}: (a∪b)∪b differs from a∪b"));
+            match (ab, ba) {
+                (Ok(ab), Ok(ba)) => {
+                    if ab.ops() != ba.ops() || ab != ba {
+                        ctx.fail(
+                            "merge_not_commutative",
+                            format!("replicas {a},{b}: a∪b holds {} ops, b∪a holds {} ops", ab.ops().len(), ba.ops().len()),
+                        );
+                    }
+                    let want: BTreeSet<usize> = sim.reps[a].have.union(&sim.reps[b].have).copied().collect();
+                    if w.ids_of(&ab).ok() != Some(want) {
+                        ctx.fail("merge_not_union", format!("replicas {a},{b}: a∪b is not the union of both op sets"));
+                    }
+                    if let Ok(abb) = merged(ctx, &ab, rb, "(a∪b)∪b") {
+                        if abb != ab {
+                            ctx.fail("merge_not_idempotent", format!("replicas {a},{b}: (a∪b)∪b differs from a∪b"));
+                        }
                     }
                 }
+                (Ok(_), Err(true)) | (Err(true), Ok(_)) => ctx.fail(
+                    "merge_not_commutative",
+                    format!("replicas {a},{b}: one of a∪b / b∪a is refused at the count limit, the other succeeds"),
+                ),
+                _ => {}
             }
         }
     }
@@ -1316,13 +1353,20 @@ fn check_laws(sim: &Sim, ctx: &mut Ctx, n: usize) {
     let r2 = if n >= 3 { &sim.reps[2].real } else { &empty };
     let left = merged(ctx, r0, r1, "a∪b").and_then(|x| merged(ctx, &x, r2, "(a∪b)∪c"));
     let right = merged(ctx, r1, r2, "b∪c").and_then(|y| merged(ctx, r0, &y, "a∪(b∪c)"));
-    if let (Some(l), Some(r)) = (left, right) {
-        if l.ops() != r.ops() || l != r {
-            ctx.fail(
-                "merge_not_associative",
-                format!("(a∪b)∪c holds {} ops, a∪(b∪c) holds {} ops", l.ops().len(), r.ops().len()),
-            );
+    match (left, right) {
+        (Ok(l), Ok(r)) => {
+            if l.ops() != r.ops() || l != r {
+                ctx.fail(
+                    "merge_not_associative",
+                    format!("(a∪b)∪c holds {} ops, a∪(b∪c) holds {} ops", l.ops().len(), r.ops().len()),
+                );
+            }
         }
+        (Ok(_), Err(true)) | (Err(true), Ok(_)) => ctx.fail(
+            "merge_not_associative",
+            "one of (a∪b)∪c / a∪(b∪c) is refused at the count limit, the other succeeds".to_string(),
+        ),
+        _ => {}
     }
 }
 
@@ -1548,6 +1592,7 @@ pub fn run(cfg: RunCfg) {
         "entry size limit = 1024 bytes, entry-count limit = 1024 (the documented constants)".into(),
         "a valid op (in-limit, addressed to this register, honestly signed by a permitted key or register open) must be accepted while the replica holds fewer than 1023 entries; whether add_op admits the 1024th entry (TooManyEntries) is an explicit either-zone, the closure oracle decides the limit".into(),
         "an op with a forged signature delivered to a register that is open to anyone is an either-zone (the statement says both 'open to anyone' and 'forged signatures are rejected'); only consistency between replicas is required".into(),
+        "a merge (between valid replicas) whose union would hold >= 1024 entries may be refused with TooManyEntries, symmetrically and without changing state; if it succeeds the resulting state falls under the closure oracle".into(),
         "an op whose address field names another register is 'against a different base register' and must be refused, also when the register is open".into(),
         "plain merge() is used only between honest replicas; adversarial same-base registers are only offered through verified_merge()".into(),
         "the owner is always a permitted writer (Register::new adds it); base registers are built with Register::new".into(),
@@ -1560,14 +1605,14 @@ pub fn run(cfg: RunCfg) {
         "schedules",
         (600, 40_000),
         16,
-        "pool 1-30 ops, 0-60 steps (deliver 70% / replica merge 20% / foreign register 5% / different-base 5%), optional partition, final sync (deliver-all in per-replica shuffles, or all-to-all merges). non-trivial: two replicas saw common ops in different orders AND (an invalid op was rejected OR a dependency arrived after its dependent OR the count limit was reached); distinct by whole case",
+        "pool 1-30 ops (other-register ops only in 30% of cases, hash twins only in 25%), 0-60 steps (deliver 74% / merge or verified_merge between replicas 21% / merge of a foreign same-base or different-base register 5%), optional partition (merges across the cut are lost), final sync (deliver-all in per-replica shuffles, or all-to-all merges). non-trivial: two replicas saw common ops in different orders AND (an invalid op was rejected OR a dependency arrived after its dependent OR the count limit was reached); distinct by whole case",
         schedule_strategy,
         check
     );
     vh_core::section!(
         rep,
         "near_limit",
-        (24, 1_200),
+        (48, 1_600),
         16,
         "fixed identity (open register; thorough: 1/16 writers-only), replicas prefilled by add_op with 990-1023 shared + 0-30 private valid entries, then pool <=12 ops and <=40 steps as above; crosses the 1024-entry limit by add_op and by merges. non-trivial as above",
         move || near_limit_strategy(thorough),
